@@ -23,7 +23,7 @@ func init() {
 			"distinct_nontrivial counts distinct (trips, stop times, presence-pattern set, odd-string classes) signatures of journals with at least one stop time",
 		Cases: func(tier string) int {
 			if tier == "thorough" {
-				return 400000 + 2*len(c20Sizes(tier))
+				return 1200000 + 2*len(c20Sizes(tier))
 			}
 			return 30000 + 2*len(c20Sizes(tier))
 		},
